@@ -6,7 +6,7 @@ EXTENDS Naturals, Report
 CONSTANTS NFaults      \* number of fault points the harness document offers
 VARIABLES fail, prior, ic
 Init == /\ fail \in 0..NFaults
-        /\ prior \in {"absent", "empty", "other", "isdir"}
+        /\ prior \in {"absent", "empty", "other", "longer", "isdir"}
         /\ ic \in BOOLEAN
 Next == UNCHANGED <<fail, prior, ic>>
 Spec == Init /\ [][Next]_<<fail, prior, ic>>
